@@ -646,6 +646,11 @@ pub(crate) fn run(
                         // Referenced group hasn't matched, so the backref doesn't match either
                         break 'fail;
                     }
+                    if lo > hi {
+                        // Backref inside its own group, start is from this iteration but end
+                        // is from an earlier one: nothing sensible to compare with
+                        break 'fail;
+                    }
                     let ref_text = &s[lo..hi];
                     let ix_end = ix + ref_text.len();
                     if !matches_literal(s, ix, ix_end, ref_text) {
